@@ -127,7 +127,7 @@ theorem stepFrom_mid (k : Nat) (r : List Nat) : ∀ (mid A B : List Nat), mid.le
         have hg : (A ++ m :: ms ++ B).getD A.length 0 = m := by
           simp [List.getD_eq_getElem?_getD, List.append_assoc]
         rw [hg, checksumComp_eq]
-        simp [List.append_assoc, List.set_append]
+        simp [List.append_assoc]
       simp only [stepFrom]
       rw [hstep]
       have := ih ms (A ++ [comp m w]) B hms (by simp only [List.length_append, List.length_cons, List.length_nil]; omega)
@@ -176,12 +176,12 @@ theorem stepFrom_rows : ∀ (fuel : Nat) (ws : List Nat) (k : Nat) (sums : List 
       exact ih (ws.drop 32) (k + 1) _ (round_length sums _ hs htl) (by omega) (by omega)
 
 theorem zeroRound_eq (sums : List Nat) (hs : sums.length = 32) : Model.zeroRound sums = round sums zeroRow := by
-  have gen : ∀ l : List Nat, l.map (Model.checksumComp · 0) = List.zipWith comp l (List.replicate l.length 0) := by
+  have gen : ∀ l : List Nat, l.map (comp · 0) = List.zipWith comp l (List.replicate l.length 0) := by
     intro l
     induction l with
     | nil => rfl
-    | cons a l ih => simp only [List.map_cons, List.length_cons, List.replicate_succ, List.zipWith_cons_cons, ih, checksumComp_eq]
-  unfold Model.zeroRound round zeroRow
+    | cons a l ih => simp only [List.map_cons, List.length_cons, List.replicate_succ, List.zipWith_cons_cons, ih]
+  show sums.map (comp · 0) = List.zipWith comp sums (List.replicate nSums 0)
   rw [gen, hs]
   rfl
 
